@@ -17,7 +17,7 @@ VARIABLE dummy
 HashClasses == {"longest", "stale", "orphan", "genesis", "unknown", "malformed", "overlong"}
 NumClasses  == {"valid", "zero", "missing", "nonnumeric", "negative", "huge", "float", "overflow64", "empty"}
 ListBodies  == {"valid", "single", "emptylist", "withgenesis", "withunknown", "withorphan", "duplicates", "emptybody", "object", "numbers", "truncated", "nonjson", "null", "long"}
-VerifyBodies == {"valid", "emptylist", "emptybody", "object", "wrongtypes", "negativeheight", "hugeheight", "truncated", "nonjson", "null", "long", "missingfields"}
+VerifyBodies == {"valid", "absurdlength", "emptylist", "emptybody", "object", "wrongtypes", "negativeheight", "hugeheight", "truncated", "nonjson", "null", "long", "missingfields"}
 WebhookBodies == {"valid", "nourl", "emptybody", "array", "wrongtypes", "truncated", "nonjson", "null", "longurl"}
 UrlClasses  == {"registered", "unregistered", "missing", "empty", "weird"}
 KeyClasses  == {"none", "longestroot", "staleroot", "unknown", "weird"}
@@ -40,7 +40,7 @@ Rows ==
   \cup {[route |-> "GET tip", p |-> <<>>, exp |-> "2xx"], [route |-> "GET tip/longest", p |-> <<>>, exp |-> "2xx"],
         [route |-> "GET network/peer", p |-> <<>>, exp |-> "2xx"], [route |-> "GET network/peer/count", p |-> <<>>, exp |-> "2xx"]}
   \cup {[route |-> "POST merkleroot/verify", p |-> <<b>>,
-         exp |-> Fam(b \in {"valid", "negativeheight", "hugeheight", "long"}, b \in {"emptylist", "emptybody", "object", "wrongtypes", "truncated", "nonjson", "null"})] : b \in VerifyBodies}
+         exp |-> Fam(b \in {"valid", "negativeheight", "hugeheight", "long", "absurdlength"}, b \in {"emptylist", "emptybody", "object", "wrongtypes", "truncated", "nonjson", "null"})] : b \in VerifyBodies}
   \cup {[route |-> "GET merkleroot", p |-> <<n, k>>,
          exp |-> Fam(n \in {"valid", "zero", "missing", "huge"} /\ k \in {"none", "longestroot"},
                      NumBad(n) \/ n = "negative" \/ k \in {"staleroot", "unknown", "weird"})] : n \in NumClasses, k \in KeyClasses}
